@@ -8,9 +8,9 @@ The measurement is a list of `n` ensemble items with `p` pixels each (base axes 
 results are indexed `[dose][sample][item][pixel]`, scalar dose / scalar seed giving an axis of length one
 (the real arrays simply lack that axis).
 
-RNG kernels (`Kernels`) are parameters: `deriveSeeded s` stands for
-`int(np.random.default_rng(s).integers(2**31-1))`, `deriveEntropy e` for the same call with `seed=None`
-(fresh OS entropy, distinguished per call by `e`), and `sample k rates` for
+RNG kernels (`Kernels`) are parameters: `deriveSeeded s key` stands for
+`int(np.random.default_rng(np.random.SeedSequence(s, spawn_key=key)).integers(2**31-1))`, `deriveEntropy e` for the same
+call with `seed=None` (fresh OS entropy, distinguished per call by `e`), and `sample k rates` for
 `np.random.RandomState(k).poisson(rates)` on the C-order flattened block.
 -/
 import AbtemVerif.Model.Partition
@@ -18,7 +18,7 @@ namespace AbtemVerif.Noise
 open AbtemVerif.Partition
 
 structure Kernels where
-  deriveSeeded : Int → Int
+  deriveSeeded : Int → List Nat → Int
   deriveEntropy : Nat → Int
   sample : Int → List Rat → List Int
 
@@ -51,10 +51,14 @@ def Dose.values : Dose → List Rat
   | .dist vs => vs
 
 /-- `randomized_seed`: the seed handed to `RandomState` -/
-def Kernels.derive (K : Kernels) (seed : Option Int) (entropy : Nat) : Int :=
+def Kernels.derive (K : Kernels) (seed : Option Int) (key : List Nat) (entropy : Nat) : Int :=
   match seed with
-  | some s => K.deriveSeeded s
+  | some s => K.deriveSeeded s key
   | none => K.deriveEntropy entropy
+
+/-- `spawn_key = tuple(block_id) if any(block_id) else ()`: the position of the block in the lazy array; the first block
+(and an eager call, which has no block position) uses the seed as it is -/
+def blockKey (ids : List Nat) : List Nat := if ids.all (· == 0) then [] else ids
 
 /-- `np.clip(array * dose, 0, None)` after tiling over the samples: the Poisson rates, `[dose][sample][item][pixel]` -/
 def rates (seeds : Seeds) (dose : Dose) (items : List (List Rat)) : Arr4 Rat :=
@@ -70,13 +74,13 @@ def reshape4 (nd ns n p : Nat) (flat : List Int) : Arr4 Int :=
 def pixels (items : List (List Rat)) : Nat := (items.head?.map List.length).getD 0
 
 /-- one call of `NoiseTransform._calculate_new_array` -/
-def calcBlock (K : Kernels) (seeds : Seeds) (dose : Dose) (entropy : Nat) (items : List (List Rat)) : Arr4 Int :=
+def calcBlock (K : Kernels) (seeds : Seeds) (dose : Dose) (key : List Nat) (entropy : Nat) (items : List (List Rat)) : Arr4 Int :=
   reshape4 dose.values.length seeds.count items.length (pixels items)
-    (K.sample (K.derive seeds.seed entropy) (flat4 (rates seeds dose items)))
+    (K.sample (K.derive seeds.seed key entropy) (flat4 (rates seeds dose items)))
 
 /-- eager evaluation: one call on the whole array -/
 def eager (K : Kernels) (seeds : Seeds) (dose : Dose) (entropy : Nat) (items : List (List Rat)) : Arr4 Int :=
-  calcBlock K seeds dose entropy items
+  calcBlock K seeds dose [] entropy items
 
 /-! ### lazy evaluation -/
 
@@ -84,6 +88,8 @@ structure Chunking where
   dose : List Nat
   samples : List Nat
   items : List Nat
+  /-- number of base axes of the measurement (each contributes a block index 0 to the block position) -/
+  baseDims : Nat := 2
 
 def Seeds.blocks : Seeds → List Nat → List Seeds
   | .scalar s, _ => [.scalar s]
@@ -105,18 +111,25 @@ def assemble (dB : List Dose) (sB : List Seeds) (iB : List (List (List Rat)))
     (sB.zipIdx.map fun Sb => (List.range Sb.1.count).map fun s' =>
       (iB.zipIdx.map fun Ic => ((blk Da.2 Sb.2 Ic.2 Da.1 Sb.1 Ic.1).getD d' []).getD s' []).flatten).flatten).flatten
 
+/-- dask's `block_id` of the block with chunk indices `(a, b, c)`: one index per existing axis (Dose axis, Sample axis,
+ensemble axis of the measurement, base axes) -/
+def blockId (seeds : Seeds) (dose : Dose) (baseDims a b c : Nat) : List Nat :=
+  (match dose with | .dist _ => [a] | .scalar _ => []) ++ (match seeds with | .dist _ => [b] | .scalar _ => []) ++ [c]
+    ++ List.replicate baseDims 0
+
 /-- lazy evaluation: blocks in row-major order (dose chunk, sample chunk, array chunk); block `t` sees entropy `ent t`.
 The result is assembled along the three chunked axes. -/
 def lazyEval (K : Kernels) (seeds : Seeds) (dose : Dose) (ch : Chunking) (ent : Nat → Nat) (items : List (List Rat)) :
     Except String (Arr4 Int) :=
   if (seeds.blocks ch.samples).any (fun b => !rebuildOk seeds.count b) then .error "assertion_error" else
   .ok <| assemble (dose.blocks ch.dose) (seeds.blocks ch.samples) (splitBy ch.items items) fun a b c D S I =>
-    calcBlock K S D (ent ((a * (seeds.blocks ch.samples).length + b) * (splitBy ch.items items).length + c)) I
+    calcBlock K S D (blockKey (blockId seeds dose ch.baseDims a b c))
+      (ent ((a * (seeds.blocks ch.samples).length + b) * (splitBy ch.items items).length + c)) I
 
 /-! ### the tagging kernels used by the driver (mirrored by the harness' fake `np.random`) -/
 
 def tagK : Kernels where
-  deriveSeeded := fun s => (s * 7919 + 104729) % 2147483647
+  deriveSeeded := fun s key => (s * 7919 + 104729 + ((key.foldl (fun acc k => acc * 31 + k + 1) 0 : Nat) : Int)) % 2147483647
   deriveEntropy := fun e => 1000003 + e
   sample := fun k rs => rs.zipIdx.map fun (r, idx) => r.floor + (k + 3 * (idx : Int)) % 7
 
